@@ -375,3 +375,31 @@ def reindex(m, new, axis, fill=float('nan')):
     labs = [list(l) for l in m.labels]
     labs[k] = list(new)
     return MA(out, m.dims, labs), missing
+
+
+# ---------------------------------------------------------------------------------------
+# C10 / C11: coordinate map
+# ---------------------------------------------------------------------------------------
+def check_coordmap(got, src, what, introduced=()):
+    """every element of got, looked up by label coordinates (dropping `introduced` dims and using
+    the single label of dims src has but got lacks), equals the corresponding element of src"""
+    fixed = {}
+    for d, lab in zip(src.dims, src.labels):
+        if d not in got.dims:
+            if len(lab) != 1:
+                return "%s: dimension %r (size %d) disappeared" % (what, d, len(lab))
+            fixed[d] = lab[0]
+    for d in got.dims:
+        if d not in src.dims and d not in introduced:
+            return "%s: unexpected dimension %r" % (what, d)
+    for pos in itertools.product(*[range(n) for n in got.values.shape]):
+        coord = dict(fixed)
+        for k, (d, p) in enumerate(zip(got.dims, pos)):
+            if d in src.dims:
+                coord[d] = got.labels[k][p]
+        f, v = lookup(src, coord)
+        if not f:
+            return "%s: coordinate %r of the result does not exist in the input" % (what, coord)
+        if not lab_eq(got.values[pos], v):
+            return "%s: element at %r is %r, the input has %r at that coordinate" % (what, coord, got.values[pos], v)
+    return None
